@@ -19,6 +19,7 @@
 package c12
 
 import (
+	"os"
 	"errors"
 	"fmt"
 	"math/big"
@@ -123,9 +124,16 @@ func newHist(r *core.Run, id string) *hist {
 	for nonce := uint64(0); nonce < 2; nonce++ {
 		h.coins = append(h.coins, aggtypes.CreateDenom(crypto.CreateAddress(h.dep.Eth, nonce).String()))
 	}
+	genesisDenom := ""
+	withGenesisPair := h.rng.Intn(2) == 0
+	if withGenesisPair {
+		// (its voucher denomination has a supply - users hold it - but no bank metadata: the import writes none)
+		genesisDenom = aggtypes.CreateDenom(crypto.CreateAddress(h.dep.Eth, 2).String())
+		h.coins = append(h.coins, genesisDenom, "gcoin")
+	}
 	fund := ac.FundGenesis(accs, h.coins, ac.UserFunds)
 	mut := fund
-	if h.rng.Intn(2) == 0 {
+	if withGenesisPair {
 		// the chain starts with a pair in its genesis file: the externally owned contract the deployer creates third, its
 		// address written in lower case (genesis validation only asks for a hex address and the import stores the string as
 		// given; pairs made on chain carry the mixed-case form)
@@ -135,6 +143,8 @@ func newHist(r *core.Run, id string) *hist {
 			var ag aggtypes.GenesisState
 			tp.AppCodec().MustUnmarshalJSON(gs[aggtypes.ModuleName], &ag)
 			ag.TokenPairs = append(ag.TokenPairs, aggtypes.TokenPair{ERC20Address: strings.ToLower(ga.Hex()), Denoms: []string{aggtypes.CreateDenom(ga.String())}, Enabled: true, ContractOwner: aggtypes.OWNER_EXTERNAL})
+			// ... and a pair of a plain coin ("gcoin": supplied, no bank metadata) with the contract the deployer creates fourth
+			ag.TokenPairs = append(ag.TokenPairs, aggtypes.TokenPair{ERC20Address: crypto.CreateAddress(h.dep.Eth, 3).Hex(), Denoms: []string{"gcoin"}, Enabled: true, ContractOwner: aggtypes.OWNER_MODULE})
 			if err := ag.Validate(); err != nil {
 				panic(err)
 			}
@@ -143,6 +153,7 @@ func newHist(r *core.Run, id string) *hist {
 		r.Count("histories_starting_from_a_genesis_pair_with_lower_case_address", 1)
 	}
 	h.n = core.NewNode(core.NodeConfig{ChainID: "teleport_9000-1", XIBCName: "teleport", Accounts: accs, MutateGenesis: mut})
+
 	h.clk = time.Date(2022, 1, 2, 0, 0, 5, 0, time.UTC)
 	h.n.Begin(h.clk)
 	err, _ := core.Catch(func() error {
@@ -398,6 +409,10 @@ func (h *hist) opRegisterCoin(reg *ac.Registry, pairs []pairView) {
 
 func (h *hist) opAddCoin(reg *ac.Registry, pairs []pairView) {
 	base := h.pickCoin(reg, 65)
+	if ds := h.registeredDenoms(pairs); len(ds) > 0 && h.pick(100) < 20 {
+		// a denomination that already belongs to a pair (with or without bank metadata - a genesis pair's has none)
+		base = ds[h.pick(len(ds))]
+	}
 	variant := []int{0, 0, 0, 1, 2}[h.pick(5)]
 	other := ""
 	if ds := h.registeredDenoms(pairs); variant == 2 {
@@ -722,6 +737,9 @@ func (h *hist) opConvertERC20(reg *ac.Registry, pairs []pairView) {
 func (h *hist) gov(action, desc string, reg *ac.Registry, content govtypes.Content) bool {
 	h.ops = append(h.ops, desc)
 	g := ac.Gov(h.n, h.n.Ctx(), content)
+	if os.Getenv("C12_DEBUG") != "" && strings.Contains(desc, "add-coin base=aggregate/") {
+		fmt.Println("DBG2", desc, g.Validated, g.Panicked, g.Err)
+	}
 	h.r.Count("gov_"+action, 1)
 	if !g.Validated {
 		h.r.Count("gov_"+action+"_invalid_basic", 1)
@@ -739,6 +757,9 @@ func (h *hist) gov(action, desc string, reg *ac.Registry, content govtypes.Conte
 		h.r.Count("gov_"+action+"_rejected", 1)
 		h.r.Eval(reg.Digest()+"|"+desc, true)
 		h.ops[len(h.ops)-1] += " -> rejected: " + firstLine(g.Err.Error())
+		if os.Getenv("C12_DEBUG") != "" && strings.Contains(desc, "add-coin base=aggregate/") {
+			fmt.Println("DBG", h.ops[len(h.ops)-1])
+		}
 		return false
 	}
 	h.r.Count("gov_"+action+"_accepted", 1)
